@@ -28,8 +28,8 @@ class SyncExecutor(CanCustomizeBind, Executor):
 
     def shutdown(self, wait=True, **_kwargs):
         if self._shutdown():
-            super(SyncExecutor, self).shutdown(wait, **_kwargs)
             metrics.EXEC_INPROGRESS.labels(type="sync", executor=self._name).dec()
+            super(SyncExecutor, self).shutdown(wait, **_kwargs)
 
     def submit(self, fn, *args, **kwargs):  # pylint: disable=arguments-differ
         """Immediately invokes `fn(*args, **kwargs)` and returns a future
